@@ -36,6 +36,7 @@ func c03(g *Gen) {
 		}
 		var ents []c03ent
 		used := map[string]bool{}
+		sameNameInTables := false
 		for p := range pkgs {
 			k := g.R.Intn(5)
 			if p == "" {
@@ -49,12 +50,21 @@ func c03(g *Gen) {
 			}
 			for j := 0; j < k; j++ {
 				nm := g.Pick(c03Names)
-				if used[p+"."+nm] {
+				// a hand-built universe may hold one name in several of a package's tables
+				kind := g.R.Intn(6)
+				if kind > 3 {
+					kind = 3
+				}
+				if used[fmt.Sprintf("%s.%s#%d", p, nm, kind)] {
 					continue
+				}
+				used[fmt.Sprintf("%s.%s#%d", p, nm, kind)] = true
+				if used[p+"."+nm] {
+					sameNameInTables = true
 				}
 				used[p+"."+nm] = true
 				name := types.Name{Package: p, Name: nm}
-				switch g.R.Intn(6) {
+				switch kind {
 				case 0:
 					t := u.Function(name)
 					t.Kind = types.DeclarationOf
@@ -101,6 +111,9 @@ func c03(g *Gen) {
 			names[nm.Name(e.t)]++
 		}
 		cls := []string{"universe", "namer-" + nmName}
+		if sameNameInTables {
+			cls = append(cls, "one-name-in-several-tables")
+		}
 		for _, c := range names {
 			if c > 1 {
 				cls = append(cls, "name-ties")
@@ -128,11 +141,13 @@ func c03(g *Gen) {
 		first := ""
 		same := true
 		var diffs []string
+		var firstResult []*types.Type
 		for r := 0; r < runs; r++ {
 			o := namer.Orderer{Namer: mk()}
-			got := render(o.OrderUniverse(u), nm)
+			res := o.OrderUniverse(u)
+			got := render(res, nm)
 			if r == 0 {
-				first = got
+				first, firstResult = got, res
 			} else if got != first {
 				same = false
 				if len(diffs) < 2 {
@@ -141,6 +156,21 @@ func c03(g *Gen) {
 			}
 		}
 		g.Emit("C03.order", in, first, cls...)
+		// the slice handed out first is the caller's (Context.Order keeps it): later orderings, of this or
+		// of another universe, must not reach into it
+		{
+			other := types.Universe{}
+			for _, n := range []string{"Zz", "Aa", "Mm"} {
+				other.Type(types.Name{Package: "ex.test/other", Name: n}).Kind = types.Struct
+			}
+			for r := 0; r < 6; r++ {
+				o1, o2 := namer.Orderer{Namer: mk()}, namer.Orderer{Namer: mk()}
+				o1.OrderUniverse(other)
+				o2.OrderTypes([]*types.Type{other.Type(types.Name{Package: "ex.test/other", Name: "Zz"}), other.Type(types.Name{Package: "ex.test/other", Name: "Aa"})})
+			}
+			kept := render(firstResult, nm)
+			g.Emit("C03.kept!", list(in, atom(first), atom(kept)), boolS(kept == first), "earlier-result-kept")
+		}
 		g.Emit("C03.stable!", list(in, atom(fmt.Sprintf("%d runs of OrderUniverse", runs)), atom(strings.Join(diffs, " | "))), boolS(same), append(cls, "repeat-runs")...)
 		// OrderTypes on a shuffled slice of the same entries
 		if len(ents) > 0 {
